@@ -84,8 +84,12 @@ def run_interp(case, res):
     hs = case["heights"]
     g_lts = {h: [3.0 + 0.8 * (xx + 8.5) + 0.01 * h ** 0.5 * (xx + 8.5) ** 1.5 for xx in lt] for h in hs}
     rbs = {h: 0.05 + 0.0001 * h for h in hs}
+    order_g = case.get("order_g") or list(range(len(hs)))
+    order_r = case.get("order_r") or list(range(len(hs)))
     for q in hs:
-        gf = GFunction(b=5.0, d=2.0, r_b_values=dict(rbs), g_lts={k: list(v) for k, v in g_lts.items()}, log_time=lt, bore_locations=[(0, 0), (0, 5)])
+        # the two dictionaries may list the heights in different orders (e.g. after a JSON round trip with sorted keys)
+        gf = GFunction(b=5.0, d=2.0, r_b_values={hs[i]: rbs[hs[i]] for i in order_r}, g_lts={hs[i]: list(g_lts[hs[i]]) for i in order_g}, log_time=lt,
+                       bore_locations=[(0, 0), (0, 5)])
         res["evals"] += 1
         try:
             g, rb, d, heq = gf.g_function_interpolation(5.0 / q)
@@ -195,6 +199,16 @@ def main(run: core.Run, only=None):
     run.drive(joins, family="join")
     hs = [24.0, 48.0, 96.0, 192.0, 384.0]
     interps = [{"family": "interp", "heights": list(c)} for r in range(1, 6) for c in itertools.combinations(hs, r)]
+    for r in (2, 3):
+        for c in itertools.combinations(hs, r):
+            for og in itertools.permutations(range(r)):
+                for orr in itertools.permutations(range(r)):
+                    if list(og) != list(range(r)) or list(orr) != list(range(r)):
+                        interps.append({"family": "interp", "heights": list(c), "order_g": list(og), "order_r": list(orr)})
+    for r in (4, 5):
+        for c in itertools.combinations(hs, r):
+            interps.append({"family": "interp", "heights": list(c), "order_g": list(range(r))[::-1], "order_r": list(range(r))})
+            interps.append({"family": "interp", "heights": list(c), "order_g": sorted(range(r), key=lambda i: str(c[i])), "order_r": list(range(r))})
     run.drive(interps, family="interpolation")
     run.drive([{"family": "radius", "ratios": [0.5, 0.8, 1.0, 1.25, 2.0, 3.0]}], family="radius-correction")
     nmax = 4 if quick else 6
